@@ -8,7 +8,14 @@
  *   X <tid>                                   thread finished
  *   DEADLOCK / LIVELOCK
  * Semantics interposed (trusted base): futex = atomic compare-and-block / wake;
- * mutex = exclusive ownership; condvar = Mesa, spurious wake-ups allowed. */
+ * mutex = exclusive ownership; condvar = Mesa, spurious wake-ups allowed.
+ * The mutex honours the type given to pthread_mutex_init when that call is wrapped too
+ * (-Wl,--wrap=pthread_mutex_init, opt-in per driver; otherwise and for a NULL attribute: default type):
+ *   NORMAL/DEFAULT  a lock by the owner blocks for ever (shows as DEADLOCK), unlock releases
+ *   ERRORCHECK      a lock by the owner returns EDEADLK, an unlock by a non-owner returns EPERM
+ *   RECURSIVE       a lock / trylock by the owner counts, unlock releases at depth 0
+ * Refused operations are logged with the error number in the last field
+ * ("E t mlock cell none 0 0 35", "E t munlock cell none 0 0 1"), a recursive acquisition with the depth in b. */
 #define _GNU_SOURCE
 #include <pthread.h>
 #include <semaphore.h>
@@ -22,7 +29,7 @@
 #include "muggle/c/sync/sync_obj.h"
 
 enum { ST_NONE = 0, ST_RUN = 1, ST_BLOCKED = 2, ST_DONE = 3 };
-enum { W_NONE = 0, W_FUTEX, W_MUTEX, W_CV };
+enum { W_NONE = 0, W_FUTEX, W_MUTEX, W_CV, W_HOLD, W_SLEEP };
 
 typedef struct {
 	pthread_t th;
@@ -55,7 +62,13 @@ static int nrng;
 #define MAXM 64
 static const void *mtx_addr[MAXM];
 static int mtx_owner[MAXM];
+static int mtx_type[MAXM], mtx_depth[MAXM];
 static int nmtx;
+/* types recorded by the wrapped pthread_mutex_init; survives vs_reset (a driver may create its mutexes first) */
+#define MAXMT 256
+static const void *mt_addr[MAXMT];
+static int mt_type[MAXMT];
+static int nmt;
 
 /* schedule */
 static int mode; /* 0 rand, 1 list */
@@ -75,6 +88,22 @@ static long *fint_idx, *fwk_idx;
 static int fint_n, fwk_n;
 static int rr_next;
 
+/* ---------------- virtual clock (pure addition; inert unless vs_clock_enable() was called after
+ * vs_reset()).  Virtual time advances by tick_ns at every scheduling step; when every runnable thread
+ * has performed >= 3 consecutive operations that cannot change shared state (loads, failed test_and_set /
+ * CAS, yields, harness yield points) since the last state-changing operation, it additionally jumps
+ * forward by jump_ns ("everybody is spinning"); when no thread is runnable but some are held / asleep it
+ * jumps to the earliest wake time.  A thread is made quiet by vs_hold_self(ns): it is suspended at its
+ * next scheduling point until the clock has advanced by ns - no event is logged (to the program and to
+ * the model this is just a schedule in which the thread is not chosen for a while).  With the clock on,
+ * nanosleep blocks for the requested virtual time (same logged event as before).  harness/vsched/vs_clock.c
+ * maps time() / clock_gettime() / gettimeofday() of scheduled threads to this clock (-Wl,--wrap). */
+static int vclk_on;
+static long long vnow_ns, vtick_ns, vjump_ns;
+static long long hold_req[VS_MAXT], wake_ns[VS_MAXT];
+static long since_prog[VS_MAXT];
+static int cur_nonprog, force_prog;
+
 static uint64_t rnd(void)
 {
 	rs += 0x9E3779B97F4A7C15ULL;
@@ -93,6 +122,9 @@ void vs_reset(void)
 	NT = 0; nn = 0; nrng = 0; nmtx = 0; steps = 0; run_status = 0; cur_running = -1;
 	weak_cas_count = 0; slist_i = 0; rr_next = 0; fwait_count = 0;
 	memset(T, 0, sizeof(T));
+	vclk_on = 0; vnow_ns = 0; vtick_ns = 0; vjump_ns = 0; cur_nonprog = 0; force_prog = 0;
+	memset(hold_req, 0, sizeof(hold_req)); memset(wake_ns, 0, sizeof(wake_ns));
+	memset(since_prog, 0, sizeof(since_prog));
 }
 void vs_set_budget(long b) { budget = b; }
 
@@ -237,9 +269,42 @@ static void maybe_cv_spurious(void)
 		}
 }
 
+static void vclk_release(void)
+{
+	for (int i = 0; i < NT; i++)
+		if (T[i].state == ST_BLOCKED && (T[i].wkind == W_HOLD || T[i].wkind == W_SLEEP) && wake_ns[i] <= vnow_ns) {
+			T[i].state = ST_RUN; T[i].wkind = W_NONE;
+		}
+}
+/* kind 0: plain scheduling point before an operation; 1: after an operation (cur_nonprog says whether it
+ * could change shared state); 2: a blocking / finishing step (progress) */
+static void vclk_step(int kind)
+{
+	vnow_ns += vtick_ns;
+	if (kind == 1 && me >= 0) {
+		if (cur_nonprog && !force_prog) since_prog[me]++;
+		else memset(since_prog, 0, sizeof(since_prog));
+		cur_nonprog = 0; force_prog = 0;
+	} else if (kind == 2) {
+		memset(since_prog, 0, sizeof(since_prog));
+		cur_nonprog = 0; force_prog = 0;
+	}
+	if (me >= 0 && hold_req[me] > 0 && T[me].state == ST_RUN) {
+		T[me].state = ST_BLOCKED; T[me].wkind = W_HOLD; wake_ns[me] = vnow_ns + hold_req[me];
+		hold_req[me] = 0;
+	}
+	if (vjump_ns > 0) {
+		int any = 0, all = 1;
+		for (int i = 0; i < NT; i++)
+			if (T[i].state == ST_RUN) { any = 1; if (since_prog[i] < 3) all = 0; }
+		if (any && all) { vnow_ns += vjump_ns; memset(since_prog, 0, sizeof(since_prog)); }
+	}
+	vclk_release();
+}
+
 /* hand the baton to the next thread chosen by the schedule; returns when this thread is
  * scheduled again */
-static void resched(void)
+static void resched_k(int kind)
 {
 	steps++;
 	if (steps > budget) {
@@ -248,14 +313,27 @@ static void resched(void)
 		park_forever();
 	}
 	maybe_cv_spurious();
+	if (vclk_on) vclk_step(kind);
 	int nxt = pick();
+	if (nxt < 0 && vclk_on) {
+		/* nobody runnable: let virtual time pass until the first held / sleeping thread is due */
+		long long first = -1;
+		for (int i = 0; i < NT; i++)
+			if (T[i].state == ST_BLOCKED && (T[i].wkind == W_HOLD || T[i].wkind == W_SLEEP) &&
+				(first < 0 || wake_ns[i] < first)) first = wake_ns[i];
+		if (first >= 0) {
+			if (first > vnow_ns) vnow_ns = first;
+			vclk_release();
+			nxt = pick();
+		}
+	}
 	if (nxt < 0) {
 		int all_done = 1;
 		for (int i = 0; i < NT; i++) if (T[i].state != ST_DONE) all_done = 0;
 		if (all_done) { finish_run(0); return; }
 		printf("DEADLOCK");
 		for (int i = 0; i < NT; i++) if (T[i].state == ST_BLOCKED) printf(" T%d:%s", i,
-			T[i].wkind == W_FUTEX ? "futex" : T[i].wkind == W_MUTEX ? "mutex" : "cv");
+			T[i].wkind == W_FUTEX ? "futex" : T[i].wkind == W_MUTEX ? "mutex" : T[i].wkind == W_CV ? "cv" : "sleep");
 		printf("\n");
 		finish_run(1);
 		if (me >= 0) park_forever();
@@ -266,17 +344,18 @@ static void resched(void)
 	sem_post(&T[nxt].sem);
 	if (me >= 0 && T[me].state != ST_DONE) sem_wait(&T[me].sem);
 }
+static void resched(void) { resched_k(2); }
 
 void vs_point(void)
 {
 	if (me < 0) return;
 	printf("P %d\n", me);
-	resched();
+	resched_k(0);
 }
 void vs_after(void)
 {
 	if (me < 0) return;
-	resched();
+	resched_k(1);
 }
 
 void vs_log(const char *op, const void *addr, int mo, long long a, long long b, long long c, const char *fn)
@@ -285,6 +364,9 @@ void vs_log(const char *op, const void *addr, int mo, long long a, long long b, 
 	if (me < 0) return;
 	char buf[48];
 	printf("E %d %s %s %s %lld %lld %lld\n", me, op, nm(addr, buf), mo_name(mo), a, b, c);
+	if (vclk_on)   /* operations that leave shared state as it was: a thread repeating them is spinning */
+		cur_nonprog = strcmp(op, "load") == 0 || strcmp(op, "fence") == 0 || (strcmp(op, "tas") == 0 && a == 1) ||
+			((strcmp(op, "casw") == 0 || strcmp(op, "cass") == 0) && c != 1);
 }
 
 void vs_note(const char *fmt, ...)
@@ -294,6 +376,7 @@ void vs_note(const char *fmt, ...)
 	vsnprintf(buf, sizeof(buf), fmt, ap);
 	va_end(ap);
 	printf("R %d %s\n", me, buf);
+	force_prog = 1;
 }
 
 void vs_yield_point(const char *what)
@@ -301,6 +384,7 @@ void vs_yield_point(const char *what)
 	if (me < 0) return;
 	vs_point();
 	printf("E %d plain %s none 0 0 0\n", me, what);
+	cur_nonprog = 1;
 	vs_after();
 }
 
@@ -408,12 +492,34 @@ int __real_pthread_cond_broadcast(pthread_cond_t *c);
 int __real_sched_yield(void);
 int __real_nanosleep(const struct timespec *a, struct timespec *b);
 
+int __real_pthread_mutex_init(pthread_mutex_t *m, const pthread_mutexattr_t *a) __attribute__((weak));
+
+static int recorded_type(const void *m)
+{
+	for (int i = nmt - 1; i >= 0; i--) if (mt_addr[i % MAXMT] == m) return mt_type[i % MAXMT];
+	return PTHREAD_MUTEX_DEFAULT;
+}
 static int midx(const void *m)
 {
 	for (int i = 0; i < nmtx; i++) if (mtx_addr[i] == m) return i;
 	if (nmtx >= MAXM) abort();
-	mtx_addr[nmtx] = m; mtx_owner[nmtx] = -1;
+	mtx_addr[nmtx] = m; mtx_owner[nmtx] = -1; mtx_depth[nmtx] = 0; mtx_type[nmtx] = recorded_type(m);
 	return nmtx++;
+}
+/* type of a mutex as the scheduler understands it (PTHREAD_MUTEX_*) */
+int vs_mutex_type(const void *m) { return recorded_type(m); }
+
+/* only linked in when the driver asks for -Wl,--wrap=pthread_mutex_init */
+int __wrap_pthread_mutex_init(pthread_mutex_t *m, const pthread_mutexattr_t *a)
+{
+	int ty = PTHREAD_MUTEX_DEFAULT;
+	if (a && pthread_mutexattr_gettype(a, &ty) != 0) ty = PTHREAD_MUTEX_DEFAULT;
+	int slot = -1;
+	for (int i = 0; i < nmt && i < MAXMT; i++) if (mt_addr[i] == m) slot = i;
+	if (slot < 0) { slot = nmt % MAXMT; if (nmt < MAXMT) nmt++; }
+	mt_addr[slot] = m; mt_type[slot] = ty;
+	for (int i = 0; i < nmtx; i++) if (mtx_addr[i] == m) { mtx_owner[i] = -1; mtx_depth[i] = 0; mtx_type[i] = ty; }
+	return __real_pthread_mutex_init ? __real_pthread_mutex_init(m, a) : 0;
 }
 static void wake_mutex_waiters(const void *m)
 {
@@ -437,6 +543,21 @@ int __wrap_pthread_mutex_lock(pthread_mutex_t *m)
 	if (me < 0) return __real_pthread_mutex_lock(m);
 	char buf[48];
 	vs_point();
+	{
+		int k = midx(m);
+		if (mtx_owner[k] == me && mtx_type[k] == PTHREAD_MUTEX_ERRORCHECK) {
+			printf("E %d mlock %s none 0 0 %d\n", me, nm(m, buf), EDEADLK);
+			vs_after();
+			return EDEADLK;
+		}
+		if (mtx_owner[k] == me && mtx_type[k] == PTHREAD_MUTEX_RECURSIVE) {
+			mtx_depth[k]++;
+			printf("E %d mlock %s none 0 %d 0\n", me, nm(m, buf), mtx_depth[k]);
+			vs_after();
+			return 0;
+		}
+		/* default type: a lock by the owner waits for an unlock that cannot come */
+	}
 	acquire_mutex(m);
 	printf("E %d mlock %s none 0 0 0\n", me, nm(m, buf));
 	vs_after();
@@ -449,6 +570,12 @@ int __wrap_pthread_mutex_trylock(pthread_mutex_t *m)
 	vs_point();
 	int k = midx(m), ok = mtx_owner[k] == -1;
 	if (ok) mtx_owner[k] = me;
+	else if (mtx_owner[k] == me && mtx_type[k] == PTHREAD_MUTEX_RECURSIVE) {
+		mtx_depth[k]++;
+		printf("E %d mtry %s none 1 %d 0\n", me, nm(m, buf), mtx_depth[k]);
+		vs_after();
+		return 0;
+	}
 	printf("E %d mtry %s none %d 0 0\n", me, nm(m, buf), ok);
 	vs_after();
 	return ok ? 0 : EBUSY;
@@ -459,6 +586,17 @@ int __wrap_pthread_mutex_unlock(pthread_mutex_t *m)
 	char buf[48];
 	vs_point();
 	int k = midx(m);
+	if (mtx_type[k] == PTHREAD_MUTEX_ERRORCHECK && mtx_owner[k] != me) {
+		printf("E %d munlock %s none 0 0 %d\n", me, nm(m, buf), EPERM);
+		vs_after();
+		return EPERM;
+	}
+	if (mtx_type[k] == PTHREAD_MUTEX_RECURSIVE && mtx_owner[k] == me && mtx_depth[k] > 0) {
+		mtx_depth[k]--;
+		printf("E %d munlock %s none 0 %d 0\n", me, nm(m, buf), mtx_depth[k] + 1);
+		vs_after();
+		return 0;
+	}
 	mtx_owner[k] = -1;
 	wake_mutex_waiters(m);
 	printf("E %d munlock %s none 0 0 0\n", me, nm(m, buf));
@@ -526,6 +664,7 @@ int __wrap_sched_yield(void)
 	if (me < 0) return __real_sched_yield();
 	vs_point();
 	printf("E %d yield - none 0 0 0\n", me);
+	cur_nonprog = 1;
 	vs_after();
 	return 0;
 }
@@ -534,8 +673,31 @@ int __wrap_nanosleep(const struct timespec *a, struct timespec *b)
 	if (me < 0) return __real_nanosleep(a, b);
 	vs_point();
 	printf("E %d yield - none 1 0 0\n", me);
+	if (vclk_on && a) {
+		/* virtual clock on: the thread really is away for the requested (virtual) time */
+		long long d = (long long)a->tv_sec * 1000000000LL + a->tv_nsec;
+		if (d > 0) {
+			T[me].state = ST_BLOCKED; T[me].wkind = W_SLEEP; wake_ns[me] = vnow_ns + d;
+			resched();
+			if (b) { b->tv_sec = 0; b->tv_nsec = 0; }
+			return 0;
+		}
+	}
 	vs_after();
 	return 0;
+}
+
+/* ---------------- virtual clock API ---------------- */
+void vs_clock_enable(long long start_ns, long long tick_ns, long long jump_ns)
+{
+	vclk_on = 1; vnow_ns = start_ns; vtick_ns = tick_ns < 0 ? 0 : tick_ns; vjump_ns = jump_ns < 0 ? 0 : jump_ns;
+}
+int vs_clock_on(void) { return vclk_on; }
+long long vs_clock_now_ns(void) { return vnow_ns; }
+void vs_hold_self(long long ns)
+{
+	if (me < 0 || !vclk_on || ns <= 0) return;
+	hold_req[me] += ns;
 }
 
 /* ---------------- additions for blocking I/O (harness/vsched/vs_io.c) ----------------
